@@ -26,7 +26,7 @@ from pams.utils.json_random import JsonRandom  # noqa: E402
 
 ID = "C18"
 RULE = ("(extends) dictionaries of 1-8 entries with random 'extends' pointers (chains to depth 8, shared parents, self-loops, "
-        "cycles, missing parents), keys from a small alphabet incl. non-inheritable ones, against a reference resolver written "
+        "cycles, missing parents), keys from a small alphabet incl. non-inheritable ones, values that are numbers, [a,b] ranges, one-key distribution dicts, nested dicts, strings or null (a child value replaces the ancestor value as a whole), against a reference resolver written "
         "from the statement; inputs must not be mutated. Non-trivial = chain of depth >=3 with an overridden key, or an error "
         "case. (expand) 1-4 market groups and 1-3 agent groups declared by numMarkets/numAgents 1-6, inclusive from/to ranges "
         "of length 1-6 at arbitrary offsets, or neither, with/without prefix, directly or through 'extends' templates that "
@@ -36,7 +36,7 @@ RULE = ("(extends) dictionaries of 1-8 entries with random 'extends' pointers (c
         "offset range. (random) JsonRandom specs with real seeded PRNGs: const, [a,b] / uniform (a <= x <= b), expon (x >= 0, "
         "mean within 7 sigma over 400 draws), normal (mean / std within 7 sigma), malformed specs refused. (classes) every public class of "
         "pams' namespaces resolves to itself, generated user classes resolve once registered, unknown or doubly defined names "
-        "are refused. (legacy) maxHifreqOrders / hifreqSubmitRate set the same Session attributes as their replacements; both "
+        "are refused. (userclasses) a configuration naming user-defined Market / IndexMarket / Agent / HighFrequencyAgent / EventABC subclasses (directly or through an 'extends' template) registered with runner.class_register: every created entity is an instance of exactly the named class, and a user class that was not registered is refused. (legacy) maxHifreqOrders / hifreqSubmitRate set the same Session attributes as their replacements; both "
         "spellings together are refused.")
 ASSUMPTIONS = ["termination is judged with a 5 s (json_extends) / 10 s (runner setup) watchdog per call; the calls take microseconds / milliseconds",
                "uniform draws may hit the closed upper end by one float rounding (a <= x <= b is demanded, not x < b)",
@@ -48,13 +48,22 @@ KEYS = ["a", "b", "c", "from", "to", "numAgents", "prefix"]
 # -- (a) json_extends ---------------------------------------------------------------------------------------------------
 
 
+# values as they occur in configurations: numbers, [a, b] ranges, one-key distribution dicts, nested settings, names, null.
+# Inheritance is per top-level key: a child's value replaces the ancestor's whole value, whatever its type.
+VALUES = st.one_of(st.integers(0, 9), st.integers(0, 9),
+                   st.lists(st.integers(0, 9), min_size=2, max_size=2),
+                   st.builds(lambda k, v: {k: v}, st.sampled_from(["const", "expon", "uniform", "normal"]), st.lists(st.integers(0, 9), min_size=1, max_size=2)),
+                   st.dictionaries(st.sampled_from(["x", "y", "extends", "a"]), st.one_of(st.integers(0, 9), st.dictionaries(st.sampled_from(["x", "z"]), st.integers(0, 9), max_size=2)), max_size=3),
+                   st.sampled_from(["N0", "text", None, True, 0.5]))
+
+
 @st.composite
 def extends_cases(draw, tier):
     n = draw(st.integers(1, 8))
     names = [f"N{i}" for i in range(n)]
     whole = {}
     for nm in names:
-        d = {k: draw(st.integers(0, 9)) for k in draw(st.lists(st.sampled_from(KEYS), max_size=4, unique=True))}
+        d = {k: draw(VALUES) for k in draw(st.lists(st.sampled_from(KEYS), max_size=4, unique=True))}
         r = draw(st.integers(0, 9))
         if r < 7:
             d["extends"] = draw(st.sampled_from(names + ["missing"])) if r == 0 else draw(st.sampled_from(names))
@@ -379,6 +388,88 @@ def class_check(case):
     return CaseInfo(nontrivial=True, classes=classes, steps=len(builtins), sample=case)
 
 
+# -- (d2) user-registered classes through the runner -------------------------------------------------------------------------
+
+
+@st.composite
+def userclass_cases(draw, tier):
+    names = draw(st.lists(st.lists(st.sampled_from(WORDS), min_size=2, max_size=3).map("".join), min_size=5, max_size=5, unique=True))
+    roles = ["market", "index", "agent", "hft", "event"]
+    user = {r: draw(st.booleans()) for r in roles}
+    if not any(user.values()):
+        user[draw(st.sampled_from(roles))] = True
+    unregistered = draw(st.sampled_from([None, None, None] + roles))
+    return {"names": dict(zip(roles, names)), "user": user, "unregistered": unregistered, "n": draw(st.integers(1, 3)), "steps": draw(st.integers(1, 4)),
+            "via_extends": draw(st.booleans()), "seed": draw(st.integers(0, 1000))}
+
+
+def userclass_check(case):
+    """a configuration that names user-defined market / index / agent / high-frequency agent / event classes registered on the
+    runner (runner.class_register): every entity is created from exactly the class its entry names; a name that was not
+    registered is refused."""
+    from pams.agents import Agent, HighFrequencyAgent
+    from pams.events import EventABC, EventHook
+    from pams.index_market import IndexMarket
+    from pams.market import Market
+    builtins = builtin_classes()
+    nm = case["names"]
+    if any(v in builtins for v in nm.values()):
+        return CaseInfo(nontrivial=False, classes=["name_clash"], sample=case)
+    fired = []
+    base = {"market": Market, "index": IndexMarket, "agent": Agent, "hft": HighFrequencyAgent, "event": EventABC}
+    body = {"market": {}, "index": {},
+            "agent": {"submit_orders": lambda self, markets: []}, "hft": {"submit_orders": lambda self, markets: []},
+            "event": {"hook_registration": lambda self: [EventHook(event=self, hook_type="market", is_before=True, time=None)],
+                      "hooked_before_step_for_market": lambda self, simulator, market: fired.append(market.market_id)}}
+    cls = {r: type(nm[r], (base[r],), dict(body[r])) for r in base}
+    default = {"market": "Market", "index": "IndexMarket", "agent": "TestAgent", "hft": "TestAgent", "event": "FundamentalPriceShock"}
+    cname = {r: (nm[r] if case["user"][r] else default[r]) for r in base}
+    cfg = {"simulation": {"markets": ["M", "I"], "agents": ["A", "H"],
+                          "sessions": [{"sessionName": 0, "iterationSteps": case["steps"], "withOrderPlacement": True, "withOrderExecution": True,
+                                        "withPrint": False, "maxNormalOrders": 1, "events": ["E"]}]},
+           "M": {"class": cname["market"], "numMarkets": 2, "tickSize": 1.0, "marketPrice": 100.0, "outstandingShares": 10},
+           "I": {"class": cname["index"], "tickSize": 1.0, "marketPrice": 100.0, "markets": ["M-0", "M-1"]},
+           "A": {"class": cname["agent"], "numAgents": case["n"], "markets": ["M"], "cashAmount": 100, "assetVolume": 1},
+           "H": {"class": cname["hft"], "numAgents": case["n"], "markets": ["M", "I"], "cashAmount": 100, "assetVolume": 1},
+           "E": {"class": cname["event"], "target": "M-0", "triggerTime": 0, "priceChangeRate": 0.0, "enabled": False}}
+    if case["via_extends"]:
+        # the class name reaches the entry through a template
+        for key in ("M", "A", "E"):
+            cfg["T" + key] = {"class": cfg[key].pop("class")}
+            cfg[key]["extends"] = "T" + key
+    r = SequentialRunner(settings=cfg, prng=random.Random(case["seed"]), logger=Logger())
+    missing = case["unregistered"] if case["unregistered"] and case["user"][case["unregistered"]] else None
+    for role in base:
+        if case["user"][role] and role != missing:
+            r.class_register(cls[role])
+    try:
+        r._setup()
+    except Exception as e:  # noqa: BLE001
+        if missing is not None and isinstance(e, (AttributeError, ValueError)):
+            return CaseInfo(nontrivial=True, classes=["unregistered_refused", "missing_" + missing], sample=case)
+        crash = classify_exception(e)
+        if crash is None:
+            raise
+        raise Violation("C18.user_class_resolves", f"setup with registered user classes {[nm[x] for x in base if case['user'][x]]} raised {type(e).__name__}: {e}", crash.tb_text)
+    if missing is not None:
+        raise Violation("C18.unregistered_class_refused", f"class {nm[missing]} ({missing}) was never registered, yet the configuration was accepted")
+    sim = r.simulator
+    want = {x: (cls[x] if case["user"][x] else next(iter(builtins[default[x]]))) for x in base}
+    got_m = [type(m) for m in sim.markets]
+    if got_m != [want["market"], want["market"], want["index"]]:
+        raise Violation("C18.class_of_entity", f"markets created as {[c.__name__ for c in got_m]}, entries name {cname['market']} x2 and {cname['index']}")
+    got_a = [type(a) for a in sim.agents]
+    if got_a != [want["agent"]] * case["n"] + [want["hft"]] * case["n"]:
+        raise Violation("C18.class_of_entity", f"agents created as {[c.__name__ for c in got_a]}, entries name {cname['agent']} / {cname['hft']}")
+    if [type(a) for a in sim.high_frequency_agents] != ([want["hft"]] * case["n"] if case["user"]["hft"] else []):
+        raise Violation("C18.class_of_entity", "high-frequency classification does not follow the registered class")
+    evs = list(sim.events)
+    if case["user"]["event"]:
+        if [type(e) for e in evs] != [want["event"]]:
+            raise Violation("C18.class_of_entity", f"events created as {[type(e).__name__ for e in evs]}, the session names {cname['event']}")
+    return CaseInfo(nontrivial=True, classes=["resolved"] + [x for x in base if case["user"][x]] + (["via_extends"] if case["via_extends"] else []), sample=case)
+
+
 # -- (e) legacy keys -----------------------------------------------------------------------------------------------------------
 
 legacy_cases = st.fixed_dictionaries({
@@ -440,6 +531,8 @@ PARTS = {
                "watchdog": (10, "C18.expansion_terminates")},
     "random": {"check": random_check, "strategy": random_cases, "budget": {"quick": 5000, "thorough": 150000}},
     "classes": {"check": class_check, "strategy": class_cases, "budget": {"quick": 320, "thorough": 6000}},
+    "userclasses": {"check": userclass_check, "strategy": userclass_cases, "budget": {"quick": 1000, "thorough": 20000},
+                    "watchdog": (10, "C18.expansion_terminates")},
     "legacy": {"check": legacy_check, "strategy": lambda tier: legacy_cases, "budget": {"quick": 2000, "thorough": 30000}},
 }
 
